@@ -619,3 +619,203 @@ Section Partial.
     unfold d_has. rewrite <- Hget. apply m_has_get. rewrite Hst. exact Hwf.
   Qed.
 End Partial.
+
+(* ======================================================================== *)
+(* mutable map: the full refinement                                          *)
+(* ======================================================================== *)
+
+Definition esorted (m : list edit) : Prop := ksorted (map fst m).
+
+Lemma merge_iter_cons pk pv d mk mv m :
+  merge_iter ((pk, pv) :: d) ((mk, mv) :: m) =
+  if pk <? mk then (pk, pv) :: merge_iter d ((mk, mv) :: m)
+  else if mk <? pk then emit mk mv ++ merge_iter ((pk, pv) :: d) m
+  else emit mk mv ++ merge_iter d m.
+Proof. reflexivity. Qed.
+
+Lemma merge_iter_nil_r d : merge_iter d [] = d.
+Proof. destruct d as [|[k v] d]; reflexivity. Qed.
+
+Lemma e_get_none_above q m : Forall (N.lt q) (map fst m) -> e_get q m = None.
+Proof.
+  induction m as [|[k v] m IH]; intros H; [reflexivity|].
+  cbn [map fst] in H. inversion H as [|? ? Hk Hm]; subst. cbn [e_get].
+  destruct (k =? q) eqn:E; [apply N.eqb_eq in E; lia|]. apply IH, Hm.
+Qed.
+
+Lemma Forall_lt_trans x y l : x <= y -> Forall (N.lt y) l -> Forall (N.lt x) l.
+Proof. intros Hxy H. rewrite Forall_forall in *. intros z Hz. specialize (H z Hz). lia. Qed.
+
+Lemma d_get_emit q k v X : d_get q (emit k v ++ X) = match v with Some x => if k =? q then Some x else d_get q X | None => d_get q X end.
+Proof. destruct v; reflexivity. Qed.
+
+(* point lookups in the merged view: the pending edit wins, a tombstone hides the key *)
+Lemma merge_get q : forall d m,
+  ksorted (keys d) -> esorted m ->
+  d_get q (merge_iter d m) = match e_get q m with Some v => v | None => d_get q d end.
+Proof.
+  induction d as [|[pk pv] d IHd].
+  - intros m _. cbn [merge_iter d_get]. induction m as [|[k v] m IHm]; intros Hm; [reflexivity|].
+    unfold esorted in Hm. cbn [map fst] in Hm. apply ksorted_tail in Hm as [Hm Hf].
+    cbn [flat_map fst snd e_get]. rewrite d_get_emit. specialize (IHm Hm).
+    destruct (k =? q) eqn:E.
+    + apply N.eqb_eq in E. subst q. destruct v; [reflexivity|].
+      rewrite IHm, (e_get_none_above k m Hf). reflexivity.
+    + destruct v; exact IHm.
+  - intros m Hd. cbn [keys map fst] in Hd. pose proof Hd as Hd0. apply ksorted_tail in Hd as [Hd Hfd].
+    induction m as [|[mk mv] m IHm]; intros Hm.
+    + rewrite merge_iter_nil_r. reflexivity.
+    + unfold esorted in Hm. cbn [map fst] in Hm. pose proof Hm as Hm0. apply ksorted_tail in Hm as [Hm Hfm].
+      rewrite merge_iter_cons. destruct (pk <? mk) eqn:E1.
+      * apply N.ltb_lt in E1. cbn [d_get]. rewrite (IHd _ Hd Hm0).
+        destruct (pk =? q) eqn:E; [|reflexivity].
+        apply N.eqb_eq in E. subst q.
+        rewrite (e_get_none_above pk ((mk, mv) :: m)); [reflexivity|].
+        cbn [map fst]. constructor; [exact E1|]. apply (Forall_lt_trans pk mk); [lia|exact Hfm].
+      * apply N.ltb_ge in E1. destruct (mk <? pk) eqn:E2.
+        -- apply N.ltb_lt in E2. rewrite d_get_emit. specialize (IHm Hm). cbn [e_get].
+           destruct (mk =? q) eqn:E.
+           ++ apply N.eqb_eq in E. subst q. destruct mv; [reflexivity|].
+              rewrite IHm, (e_get_none_above mk m Hfm).
+              apply d_get_none_above. cbn [keys map fst]. constructor; [exact E2|].
+              apply (Forall_lt_trans mk pk); [lia|exact Hfd].
+           ++ destruct mv; exact IHm.
+        -- apply N.ltb_ge in E2. assert (mk = pk) by lia. subst mk.
+           rewrite d_get_emit. cbn [e_get d_get]. rewrite (IHd _ Hd Hm).
+           destruct (pk =? q) eqn:E.
+           ++ apply N.eqb_eq in E. subst q. destruct mv; [reflexivity|].
+              rewrite (e_get_none_above pk m Hfm). apply d_get_none_above, Hfd.
+           ++ destruct mv; reflexivity.
+Qed.
+
+Lemma keys_emit_lb x k v : x < k -> Forall (N.lt x) (keys (emit k v)).
+Proof. intros H. destruct v; cbn; [constructor; [exact H|constructor] | constructor]. Qed.
+
+Lemma merge_lb x : forall d m,
+  Forall (N.lt x) (keys d) -> Forall (N.lt x) (map fst m) -> Forall (N.lt x) (keys (merge_iter d m)).
+Proof.
+  induction d as [|[pk pv] d IHd].
+  - intros m _ Hm. cbn [merge_iter]. induction m as [|[k v] m IHm]; [constructor|].
+    cbn [map fst] in Hm. inversion Hm as [|? ? Hk Hm']; subst. cbn [flat_map fst snd].
+    rewrite keys_app. apply Forall_app. split; [apply keys_emit_lb, Hk | apply IHm, Hm'].
+  - intros m Hd. cbn [keys map fst] in Hd. inversion Hd as [|? ? Hpk Hd']; subst.
+    induction m as [|[mk mv] m IHm]; intros Hm.
+    + rewrite merge_iter_nil_r. exact Hd.
+    + cbn [map fst] in Hm. inversion Hm as [|? ? Hmk Hm']; subst.
+      rewrite merge_iter_cons. destruct (pk <? mk).
+      * cbn [keys map fst]. constructor; [exact Hpk|]. apply (IHd _ Hd' Hm).
+      * destruct (mk <? pk).
+        -- rewrite keys_app. apply Forall_app. split; [apply keys_emit_lb, Hmk | apply IHm, Hm'].
+        -- rewrite keys_app. apply Forall_app. split; [apply keys_emit_lb, Hmk | apply (IHd _ Hd' Hm')].
+Qed.
+
+Lemma ksorted_cons_lb a l : Forall (N.lt a) l -> ksorted l -> ksorted (a :: l).
+Proof. intros. constructor; assumption. Qed.
+
+Lemma ksorted_emit_app k v X : Forall (N.lt k) (keys X) -> ksorted (keys X) -> ksorted (keys (emit k v ++ X)).
+Proof. intros Hf Hs. destruct v; cbn [emit app]; [cbn [keys map fst]; constructor; assumption | exact Hs]. Qed.
+
+Lemma merge_sorted : forall d m, ksorted (keys d) -> esorted m -> ksorted (keys (merge_iter d m)).
+Proof.
+  induction d as [|[pk pv] d IHd].
+  - intros m _. cbn [merge_iter]. induction m as [|[k v] m IHm]; intros Hm; [constructor|].
+    unfold esorted in Hm. cbn [map fst] in Hm. apply ksorted_tail in Hm as [Hm Hf].
+    cbn [flat_map fst snd]. apply ksorted_emit_app; [|apply IHm, Hm].
+    apply (merge_lb k [] m); [constructor|exact Hf].
+  - intros m Hd. cbn [keys map fst] in Hd. pose proof Hd as Hd0. apply ksorted_tail in Hd as [Hd Hfd].
+    induction m as [|[mk mv] m IHm]; intros Hm.
+    + rewrite merge_iter_nil_r. exact Hd0.
+    + unfold esorted in Hm. cbn [map fst] in Hm. pose proof Hm as Hm0. apply ksorted_tail in Hm as [Hm Hfm].
+      rewrite merge_iter_cons. destruct (pk <? mk) eqn:E1.
+      * apply N.ltb_lt in E1. cbn [keys map fst]. constructor; [apply (IHd _ Hd Hm0)|].
+        apply merge_lb; [exact Hfd|]. cbn [map fst]. constructor; [exact E1|].
+        apply (Forall_lt_trans pk mk); [lia|exact Hfm].
+      * apply N.ltb_ge in E1. destruct (mk <? pk) eqn:E2.
+        -- apply N.ltb_lt in E2. apply ksorted_emit_app; [|apply IHm, Hm].
+           apply merge_lb; [|exact Hfm]. cbn [keys map fst]. constructor; [exact E2|].
+           apply (Forall_lt_trans mk pk); [lia|exact Hfd].
+        -- apply N.ltb_ge in E2. assert (mk = pk) by lia. subst mk.
+           apply ksorted_emit_app; [|apply (IHd _ Hd Hm)]. apply merge_lb; assumption.
+Qed.
+
+(* two sorted dictionaries with the same lookups are equal *)
+Lemma sorted_ext : forall a b : dict,
+  ksorted (keys a) -> ksorted (keys b) -> (forall q, d_get q a = d_get q b) -> a = b.
+Proof.
+  induction a as [|[ka va] a IH]; intros b Ha Hb H.
+  - destruct b as [|[kb vb] b]; [reflexivity|]. specialize (H kb). cbn [d_get] in H. rewrite N.eqb_refl in H. discriminate.
+  - cbn [keys map fst] in Ha. apply ksorted_tail in Ha as [Ha Hfa].
+    destruct b as [|[kb vb] b].
+    + specialize (H ka). cbn [d_get] in H. rewrite N.eqb_refl in H. discriminate.
+    + cbn [keys map fst] in Hb. apply ksorted_tail in Hb as [Hb Hfb].
+      assert (Hk : ka = kb).
+      { destruct (N.lt_trichotomy ka kb) as [Hlt|[Heq|Hgt]]; [|exact Heq|].
+        - pose proof (H ka) as H1. cbn [d_get] in H1. rewrite N.eqb_refl in H1.
+          replace (kb =? ka) with false in H1 by (symmetry; apply N.eqb_neq; lia).
+          rewrite d_get_none_above in H1 by (apply (Forall_lt_trans ka kb); [lia|exact Hfb]). discriminate.
+        - pose proof (H kb) as H1. cbn [d_get] in H1. rewrite N.eqb_refl in H1.
+          replace (ka =? kb) with false in H1 by (symmetry; apply N.eqb_neq; lia).
+          rewrite d_get_none_above in H1 by (apply (Forall_lt_trans kb ka); [lia|exact Hfa]). discriminate. }
+      subst kb. pose proof (H ka) as H1. cbn [d_get] in H1. rewrite N.eqb_refl in H1. injection H1 as ->.
+      f_equal. apply IH; try assumption. intros q. specialize (H q). cbn [d_get] in H.
+      destruct (ka =? q) eqn:E; [|exact H]. apply N.eqb_eq in E. subst q.
+      rewrite !d_get_none_above by assumption. reflexivity.
+Qed.
+
+Lemma e_insert_lb x k v m : x < k -> Forall (N.lt x) (map fst m) -> Forall (N.lt x) (map fst (e_insert k v m)).
+Proof.
+  intros Hx. induction m as [|[k' v'] m IH]; intros H; cbn [e_insert].
+  - constructor; [exact Hx|constructor].
+  - cbn [map fst] in H. inversion H as [|? ? Hk Hm]; subst.
+    destruct (k <? k'); [constructor; [exact Hx|exact H]|].
+    destruct (k =? k'); [constructor; [exact Hx|exact Hm]|].
+    cbn [map fst]. constructor; [exact Hk|apply IH, Hm].
+Qed.
+
+Lemma e_insert_sorted k v m : esorted m -> esorted (e_insert k v m).
+Proof.
+  unfold esorted. induction m as [|[k' v'] m IH]; intros Hs; cbn [e_insert].
+  - constructor; constructor.
+  - cbn [map fst] in Hs. pose proof Hs as Hs0. apply ksorted_tail in Hs as [Hs Hf].
+    destruct (k <? k') eqn:E1.
+    + apply N.ltb_lt in E1. cbn [map fst]. constructor; [exact Hs0|].
+      constructor; [exact E1|]. apply (Forall_lt_trans k k'); [lia|exact Hf].
+    + destruct (k =? k') eqn:E2.
+      * apply N.eqb_eq in E2. subst k'. cbn [map fst]. constructor; assumption.
+      * apply N.ltb_ge in E1. apply N.eqb_neq in E2. cbn [map fst]. constructor; [apply IH, Hs|].
+        apply e_insert_lb; [lia|exact Hf].
+Qed.
+
+Lemma e_view_sorted el : esorted (e_view el).
+Proof.
+  unfold e_view. destruct el as [log cp]. cbn [e_log].
+  assert (H : forall l acc, esorted acc -> esorted (fold_left (fun m e => e_insert (fst e) (snd e) m) l acc)).
+  { induction l as [|e l IH]; intros acc Ha; [exact Ha|]. cbn [fold_left]. apply IH, e_insert_sorted, Ha. }
+  apply H. constructor.
+Qed.
+
+(* the contents after ApplyMutations, as a function of the edit log *)
+Lemma applied_sorted s el : wf_root s -> ksorted (keys (applied s el)).
+Proof. intros Hs. apply merge_sorted; [apply wf_root_sorted, Hs | apply e_view_sorted]. Qed.
+
+Lemma applied_get q s el : wf_root s ->
+  d_get q (applied s el) = match e_get q (e_view el) with Some v => v | None => d_get q (flatten s) end.
+Proof. intros Hs. apply merge_get; [apply wf_root_sorted, Hs | apply e_view_sorted]. Qed.
+
+Lemma applied_put s el k v : wf_root s -> applied s (e_put k (Some v) el) = d_put k v (applied s el).
+Proof.
+  intros Hs. apply sorted_ext; [apply applied_sorted, Hs | apply d_put_sorted, applied_sorted, Hs|].
+  intros q. rewrite applied_get, e_view_put, e_get_insert, d_get_put, applied_get by exact Hs.
+  destruct (k =? q); reflexivity.
+Qed.
+
+Lemma applied_del s el k : wf_root s -> applied s (e_put k None el) = d_del k (applied s el).
+Proof.
+  intros Hs. apply sorted_ext; [apply applied_sorted, Hs | apply d_del_sorted, applied_sorted, Hs|].
+  intros q. rewrite applied_get, e_view_put, e_get_insert by exact Hs.
+  rewrite (d_get_del q k _ (applied_sorted s el Hs)), applied_get by exact Hs.
+  destruct (k =? q); reflexivity.
+Qed.
+
+Lemma applied_empty s : applied s e_empty = flatten s.
+Proof. unfold applied. cbn. apply merge_iter_nil_r. Qed.
